@@ -255,13 +255,25 @@ def generate():
             or ast.unparse(fb[3]) != \
             'resource = resource.merge(Resource({SERVICE_NAME: default_service_name}, schema_url))':
         raise Untranslatable('service name fallback of Resource.create changed shape')
-    tr = XTranslator(types={'default_service_name': 'String'},
-                     truthy={'process_executable_name': '(process_executable_name != "")'})
+    # `":" + str(process_executable_name)` (any attribute value) or `":" + process_executable_name` (text only)
+    aug = [n for n in ast.walk(fb[2]) if isinstance(n, ast.AugAssign)]
+    srcs = sorted(ast.unparse(n.value) for n in aug)
+    if srcs == ["':' + str(process_executable_name)", "':python'"]:
+        coerces = 'true'
+    elif srcs == ["':' + process_executable_name", "':python'"]:
+        coerces = 'false'
+    else:
+        raise Untranslatable('service name fallback builds its text from ' + repr(srcs))
+    tr = XTranslator(types={'default_service_name': 'String'}, truthy={'process_executable_name': 'penTruthy'},
+                     subst={'str(process_executable_name)': 'penText'}, names={'process_executable_name': 'penText'})
     tr.e_BinOp = lambda n: _concat(tr, n)
     fallback = tr.block([fb[0], fb[2], ast.parse('return default_service_name').body[0]], None)
-    parts.append('/-- the fallback service name of `Resource.create`; the argument is the text of the\n'
-                 '    `process.executable.name` attribute ("" when absent or empty). -/\n'
-                 'def defaultServiceName (process_executable_name : String) : String :=\n' + _ind(fallback) + '\n')
+    parts.append('/-- the fallback service name of `Resource.create`: `penTruthy` = truth value of the\n'
+                 '    `process.executable.name` attribute (false when absent), `penText` = its text. -/\n'
+                 'def defaultServiceName (penTruthy : Bool) (penText : String) : String :=\n' + _ind(fallback) + '\n')
+    parts.append('/-- is the attribute converted with str() before it is concatenated? (otherwise a truthy value that is\n'
+                 '    not text raises TypeError out of Resource.create) -/\n'
+                 f'def fallbackCoercesWithStr : Bool := {coerces}\n')
     parts.append('/-- sources merged by `Resource.create`, first = lowest precedence -/\n'
                  'def createChain : List String := ["default", "detected", "given"]\n')
 
